@@ -138,6 +138,8 @@ def value_fn(logic, S, I, sname, s, W, K):
     if modal:
         for i in worlds:
             for j in worlds:
+                if W >= 4 and i == j:
+                    continue
                 if bool(SymBool(z3.Bool(f'Rinit_{i}_{j}'))):
                     m.R.add((i, j))
                     init.append((i, j))
@@ -237,7 +239,13 @@ def value_unit(arg):
     # linear order (doc/logics/include/fde/m.existential.rst); the lattice
     # reading is the C07 finding and must not be double-counted here
     flavour_fix = {'lattice': 'std'}
-    for sname, s in sentence_shapes(logic, thorough).items():
+    shapes = [(sname, s, W) for sname, s in sentence_shapes(logic, thorough).items()]
+    if S.modal:
+        # the frame alone on one more world: fork / join shaped initial relations need three
+        # worlds (quick), chains of three steps need four (thorough)
+        A0 = lang()[0]
+        shapes.append((f'frame-only W={W + 1}', A0, W + 1))
+    for sname, s, W in shapes:
         K = 1
         if s.predicates or s.quantifiers:
             K = 3 if thorough else 2
@@ -351,6 +359,27 @@ def identity_fn(drv, name, n_sets):
         for s, v, w2 in chosen:
             if w2 == w and val(s) != v:
                 failed.add('a value set through the API was changed by finish()')
+        # nothing beyond what the identities *of this world* require: the
+        # equivalence closure of the identities set to T at w
+        cls = {p: {p} for p in consts}
+        for s, v, w2 in chosen:
+            if w2 == w and v == 'T' and s.predicate == P.Identity:
+                p, q = s.params
+                merged = cls[p] | cls[q]
+                for r in merged:
+                    cls[r] = merged
+        setT = {(s.predicate, tuple(s.params)) for s, v, w2 in chosen if w2 == w and v == 'T'}
+        for p in consts:
+            for q in consts:
+                if val(P.Identity((p, q))) == 'T' and q not in cls[p]:
+                    failed.add('identity holds between constants that nothing identifies at that world')
+            if val(F(p)) == 'T' and not any((F, (r,)) in setT for r in cls[p]):
+                failed.add('a monadic extension contains a constant that neither a set value nor an '
+                           'identity of that world puts there')
+            for q in consts:
+                if val(R2((p, q))) == 'T' and not any((R2, (r1, r2)) in setT for r1 in cls[p] for r2 in cls[q]):
+                    failed.add('a binary extension contains a pair that neither a set value nor an '
+                               'identity of that world puts there')
     if failed:
         raise Bad(' ; '.join(sorted(failed)))
     return 'ok'
@@ -495,6 +524,8 @@ def run(ctx):
         states=paths, transitions=trans, traces_validated_against_impl=0, samples=samples[:5],
         sentence_shapes=shapes, identity_sample=ids[0]['sample'] if ids else None,
         bounds=dict(worlds=3 if thorough else 2, constants=3 if thorough else 2, depth=2,
+                    frame_only=f'every initial relation on {4 if thorough else 3} worlds'
+                               + (' (irreflexive pairs symbolic)' if thorough else ''),
                     identity='3 (quick) / 4 set_value calls from 8 facts about a, b, c, any order, 2 worlds',
                     limit_best='integer lists of length <= 4, arbitrary limit'),
         solver=dict(queries=queries, solver_time_s=round(st_time, 2)),
@@ -537,8 +568,11 @@ def replay(data):
         return False, 'holds'
     logic = registry(data['logic'])
     S = LogicSem(data['logic'])
-    s = sentence_shapes(logic, data.get('thorough', False))[data['shape']]
     W, K = data['W'], data['K']
+    if data['shape'].startswith('frame-only'):
+        s = lang()[0]
+    else:
+        s = sentence_shapes(logic, data.get('thorough', False))[data['shape']]
     wit = data['witness']
     A, B, F, R2, cs, x, y, O, Q, P = lang()
     m = logic.Model()
@@ -585,6 +619,16 @@ def replay(data):
         return True, f'{data["logic"]} {data["shape"]}: {type(e).__name__}: {e}'
     from spec.evaluator import Evaluator
     interp['R'] = {(i, j) for i in m.R for j in m.R[i]}
+    frame = S.info['frame']
+    if S.modal and frame != 'serial':
+        want_R = spec.closure(frame, set(worlds), [tuple(x) for x in data.get('init') or ()])
+        if interp['R'] != want_R:
+            return True, (f'{data["logic"]}: access after finish {sorted(interp["R"])} != required closure '
+                          f'{sorted(want_R)} of {data.get("init")}')
+    elif S.modal:
+        fw = sorted(set(m.R) | set(m.frames))
+        if not all(any((w, v) in interp['R'] for v in fw) for w in fw):
+            return True, f'{data["logic"]}: finished access {sorted(interp["R"])} is not serial'
     interp['worlds'] = sorted(set(m.R) | set(m.frames))
     tables = {op: {tuple(S.names[i] for i in k): S.names[v] for k, v in t.items()}
               for op, t in S.impl.items()}
